@@ -1,5 +1,6 @@
 import Soa.Model.Exec
 import Soa.Model.Zip
+import Soa.Model.Derive
 open Soa Soa.Exec
 
 /-- line-protocol driver: reads scenarios (`shape …` line, then one operation per line) from
@@ -39,9 +40,19 @@ partial def zipLoop (h : IO.FS.Stream) : IO Unit := do
   IO.println (Soa.Zip.zipLine line)
   zipLoop h
 
+/-- `derive` mode: one attribute list per line -/
+partial def deriveLoop (h : IO.FS.Stream) : IO Unit := do
+  let line ← h.getLine
+  if line.isEmpty then return ()
+  IO.println (Soa.Derive.deriveLine line)
+  deriveLoop h
+
 def main (args : List String) : IO Unit := do
   if args == ["zip"] then
     zipLoop (← IO.getStdin)
+    return ()
+  if args == ["derive"] then
+    deriveLoop (← IO.getStdin)
     return ()
   let prof : IdxIR.Prof := if args == ["release"] then .release else .debug
   loop prof (← IO.getStdin) none 0
